@@ -1,28 +1,40 @@
 (* C19 model driver: same line protocol as harness/C19_archive.cpp *)
-let parse_spec (s : string) : ty =
+(* spec tree: B = multiset, N = multimap (same wire format as vector / vector of pairs, printed sorted) *)
+type sp = SU | SP of int | SS | SV of int | SL of sp | SSet of sp | SM of sp * sp | SPr of sp * sp | SO of sp | SJ | SB of sp | SN of sp * sp
+let parse_sp (s : string) : sp =
   let pos = ref 0 in
   let num () =
     let st = !pos in
     while !pos < String.length s && s.[!pos] >= '0' && s.[!pos] <= '9' do incr pos done;
-    n_of_int (int_of_string (String.sub s st (!pos - st))) in
+    int_of_string (String.sub s st (!pos - st)) in
   let rec go () =
     let c = s.[!pos] in
     incr pos;
     match c with
-    | 'u' -> TUnit
-    | 'p' -> TPod (num ())
-    | 's' -> TStr
-    | 'v' -> TPodVec (num ())
-    | 'L' -> TSeq (go ())
-    | 'S' -> TSet (go ())
-    | 'M' -> let k = go () in let v = go () in TMap (k, v)
-    | 'P' -> let a = go () in let b = go () in TPair (a, b)
-    | 'O' -> TPtr (go ())
-    | 'J' -> TJson
+    | 'u' -> SU
+    | 'p' -> SP (num ())
+    | 's' -> SS
+    | 'v' -> SV (num ())
+    | 'L' -> SL (go ())
+    | 'S' -> SSet (go ())
+    | 'B' -> SB (go ())
+    | 'M' -> let k = go () in let v = go () in SM (k, v)
+    | 'N' -> let k = go () in let v = go () in SN (k, v)
+    | 'P' -> let a = go () in let b = go () in SPr (a, b)
+    | 'O' -> SO (go ())
+    | 'J' -> SJ
     | _ -> failwith "spec" in
   let t = go () in
   if !pos <> String.length s then failwith "spec-trailing";
   t
+let rec ty_of_sp = function
+  | SU -> TUnit | SP n -> TPod (n_of_int n) | SS -> TStr | SV n -> TPodVec (n_of_int n)
+  | SL e | SB e -> TSeq (ty_of_sp e) | SSet e -> TSet (ty_of_sp e)
+  | SM (k, v) -> TMap (ty_of_sp k, ty_of_sp v) | SN (k, v) -> TSeq (TPair (ty_of_sp k, ty_of_sp v))
+  | SPr (a, b) -> TPair (ty_of_sp a, ty_of_sp b) | SO e -> TPtr (ty_of_sp e) | SJ -> TJson
+(* the printing functions follow the spec tree (kept in a global: one case at a time) *)
+let cur_sp = ref SU
+let parse_spec (s : string) : ty = let t = parse_sp s in cur_sp := t; ty_of_sp t
 
 let parse_value (s : string) : value =
   let pos = ref 0 in
@@ -64,18 +76,19 @@ let parse_value (s : string) : value =
   v
 
 let sorted_list l = "[" ^ String.concat "," (List.sort compare l) ^ "]"
-let rec pr (t : ty) (v : value) : string =
+let rec prs (t : sp) (v : value) : string =
   match t, v with
-  | TUnit, _ -> "()"
-  | (TPod _ | TStr | TPodVec _), VBytes b -> hex_of_bytes b
-  | TJson, VJson b -> "j" ^ hex_of_bytes b
-  | TSeq e, VList l -> "[" ^ String.concat "," (List.map (pr e) l) ^ "]"
-  | TSet e, VList l -> sorted_list (List.map (pr e) l)
-  | TMap (k, x), VList l -> sorted_list (List.map (pr (TPair (k, x))) l)
-  | TPair (a, b), VPair (x, y) -> "(" ^ pr a x ^ "," ^ pr b y ^ ")"
-  | TPtr _, VPtr None -> "N"
-  | TPtr e, VPtr (Some x) -> "&" ^ pr e x
+  | SU, _ -> "()"
+  | (SP _ | SS | SV _), VBytes b -> hex_of_bytes b
+  | SJ, VJson b -> "j" ^ hex_of_bytes b
+  | SL e, VList l -> "[" ^ String.concat "," (List.map (prs e) l) ^ "]"
+  | (SSet e | SB e), VList l -> sorted_list (List.map (prs e) l)
+  | (SM (k, x) | SN (k, x)), VList l -> sorted_list (List.map (prs (SPr (k, x))) l)
+  | SPr (a, b), VPair (x, y) -> "(" ^ prs a x ^ "," ^ prs b y ^ ")"
+  | SO _, VPtr None -> "N"
+  | SO e, VPtr (Some x) -> "&" ^ prs e x
   | _ -> "?ill-typed"
+let pr (_ : ty) (v : value) : string = prs !cur_sp v
 
 let err_name = function
   | EEof -> "err:eof" | EFmtHdr -> "err:fmth" | EFmtSize -> "err:fmts" | EBlockLen -> "err:blen"
